@@ -141,8 +141,14 @@ class Req(object):
         self.state_after = None
 
 
+class CaseTooBig(Exception):
+    pass
+
+
 class World(object):
     MAX_FIRINGS = 4000
+    MAX_EVENTS = 60000
+    T_MAX = 1.0e9
 
     def __init__(self, cfg):
         self.cfg = cfg
@@ -159,6 +165,7 @@ class World(object):
         self.ids_seen = set()
         self.skipped = 0
         self.budget_hit = False
+        self.too_big = False
         self.ops_done = []
         JITTER.value = cfg.get("jitter", 0.25)
         REACTOR.reset(self)
@@ -171,6 +178,8 @@ class World(object):
 
     def ev(self, conn, k, **d):
         e = Ev(len(self.log), self.step, self.now(), conn.idx if conn is not None else None, k, self.ctx, d)
+        if len(self.log) > self.MAX_EVENTS:
+            raise CaseTooBig()
         self.log.append(e)
         return e
 
@@ -311,6 +320,8 @@ class World(object):
         try:
             try:
                 r = fn(req)
+            except CaseTooBig:
+                raise
             except Exception as x:  # noqa: BLE001 - raising is API behaviour, the monitors judge it
                 req.ret, req.exc = "raised", x
                 self.ev(conn, "raised", rid=req.rid, exc=type(x).__name__, excobj=x)
@@ -526,6 +537,8 @@ class World(object):
                     break
                 try:
                     conn.proto.dataReceived(ch)
+                except CaseTooBig:
+                    raise
                 except Exception as x:  # noqa: BLE001
                     self.escape("dataReceived", x)
         finally:
@@ -632,10 +645,10 @@ class World(object):
             if qos:
                 pid = 1 + (y % 3) if y < 250 else 65535
                 if qos == 2 and pid in self.in_q2[a]:
-                    topic, payload = self.in_q2[a][pid]      # a broker repeats the same message
+                    topic, payload, retain = self.in_q2[a][pid]      # a broker repeats the same message
                     dup = True
                 elif qos == 2:
-                    self.in_q2[a][pid] = (topic, payload)
+                    self.in_q2[a][pid] = (topic, payload, retain)
             f = dict(topic=topic, payload=payload, qos=qos, dup=dup if qos else False, retain=retain, id=pid)
             self.deliver(conn, R.ref_encode("PUBLISH", f, ver), ("PUBLISH", qos, pid, f["dup"], retain,
                                                                   topic, payload), cuts)
@@ -671,6 +684,10 @@ class World(object):
             return False
         t = min(c.getTime() for c in calls)
         if limit is not None and t > limit:
+            return False
+        if t > self.T_MAX:
+            # beyond ~30 years of virtual time float resolution can no longer separate "now" from
+            # "now + a retry interval"; such timers count as out of reach
             return False
         clock = REACTOR.clock
         if t > clock.rightNow:
@@ -717,6 +734,8 @@ class World(object):
             conn.phase = "lost"
             try:
                 conn.proto.connectionLost(_failure.Failure(exc))
+            except CaseTooBig:
+                raise
             except Exception as x:  # noqa: BLE001
                 self.escape("connectionLost", x)
         finally:
@@ -773,6 +792,86 @@ class World(object):
         if REACTOR.clock.rightNow < target:
             REACTOR.clock.rightNow = target
 
+    def op_pingrun(self, a, periods, klass=0):
+        """C15: run `periods` keepalive periods; klass 0: answer each PINGREQ at once, 1: answer just
+        before its deadline, 2: answer every second one only, 3: answer twice"""
+        conn = self.live(a)
+        if not self.can_rx(conn) or conn.phase != "connected" or not conn.keepalive:
+            self.skipped += 1
+            return
+        k = conn.keepalive
+        for i in range(periods):
+            if not self.can_rx(conn):
+                return
+            if conn.b_ping:
+                if klass == 1:
+                    self.op_advance(k * 0.999 if k < 1000 else float(k) - 1.0)
+                if klass != 2 or i % 2 == 0:
+                    if self.can_rx(conn):
+                        self.op_rx(a, "PINGRESP")
+                    if klass == 3 and self.can_rx(conn):
+                        self.op_rx(a, "PINGRESP")
+            if not self._fire_instant():
+                return
+
+    def op_retrytail(self, a, need=3, budget=400):
+        """C08 bounded liveness: let timers fire (answering pings so that keepalive does not end the
+        connection) until every packet the broker still has outstanding has been seen `need` more
+        times, or the budget of timer instants is used up.  Records its own observation."""
+        conn = self.live(a)
+        if not self.can_rx(conn) or conn.phase != "connected":
+            self.ev(None, "retrytail", tracked=0, short=[], inconclusive=0)
+            return
+        from .facts import marker_of
+
+        def outstanding():
+            ks = set()
+            for i in conn.b_q1 + conn.b_q2:
+                ks.add(("PUBLISH", i))
+            for i in conn.b_rel:
+                ks.add(("PUBREL", i))
+            for i in conn.b_sub:
+                ks.add(("SUBSCRIBE", i))
+            for i in conn.b_unsub:
+                ks.add(("UNSUBSCRIBE", i))
+            return ks
+        track = outstanding()
+        start = len(conn.frames)
+        n = 0
+        counts = dict((k, 0) for k in track)
+        while n < budget:
+            if not self._fire_instant():
+                break
+            n += 1
+            if not self.can_rx(conn):
+                break
+            while conn.b_ping:
+                self.op_rx(a, "PINGRESP")
+            counts = dict((k, 0) for k in track)
+            for fr in conn.frames[start:]:
+                key = (fr[1], fr[2].get("id") if isinstance(fr[2], dict) else None)
+                if key in counts:
+                    counts[key] += 1
+            if all(v >= need for v in counts.values()):
+                break
+        alive = self.can_rx(conn) and conn.phase == "connected"
+        short = []
+        inconclusive = 0
+        if alive:
+            no_timers = not REACTOR.getDelayedCalls()
+            for key, v in counts.items():
+                if v < need:
+                    if no_timers or (n >= budget and not conn.keepalive and len(track) * need * 4 < budget and
+                                     self.now() - conn.t_connack > 1e7):
+                        pass
+                    if no_timers:
+                        # nothing can ever fire again: the packet will never be resent
+                        rid = None
+                        short.append((key[0], key[1], v, need))
+                    else:
+                        inconclusive += 1
+        self.ev(None, "retrytail", tracked=len(track), short=short, inconclusive=inconclusive, instants=n)
+
     def finish(self):
         """tear the world down so nothing outlives the case"""
         for c in REACTOR.getDelayedCalls():
@@ -816,6 +915,8 @@ def run_case(cfg, ops):
     w = World(cfg)
     try:
         w.run(ops)
+    except CaseTooBig:
+        w.too_big = True
     finally:
         w.finish()
     return w
